@@ -162,6 +162,39 @@ def case_variants(ctx, d):
 
 
 # ------------------------------------------------------------------------------------------------
+# exhaustive: strings that merely LOOK like one of the four documented visibility aliases
+# ------------------------------------------------------------------------------------------------
+
+
+def gen_alias_lookalikes(tier):
+    seen = set()
+    nums = [0, 10, 20, 40, 60, 80, 100]
+    cands = [f"v{a}-{b}" for a in nums for b in nums]
+    for al in VIS_ALIASES:
+        cands += [al + " ", " " + al, al + "%", al + " (x)", al.upper(), al + "0", "x" + al, al.replace("-", "_"), al.replace("v", "v0"), al + "-1"]
+    for c in cands:
+        if c not in VIS_ALIASES and c not in seen:
+            seen.add(c)
+            yield {"s": c}
+
+
+@CHECK.enum("alias_lookalikes", gen_alias_lookalikes)
+def alias_lookalikes(ctx, d):
+    from perception_eval.common.schema import Visibility
+
+    ctx.mark_nontrivial()
+    for name, fn in (("Visibility.from_value", Visibility.from_value), ("Visibility.from_alias", Visibility.from_alias)):
+        try:
+            got = fn(d["s"])
+        except Exception:  # noqa: BLE001 -- rejection is an allowed outcome
+            ctx.cls("rejected")
+            continue
+        ok = got is None or got is Visibility.UNAVAILABLE
+        ctx.cls("fallback" if ok else "accepted")
+        ctx.require(ok, f"nonmember-accepted:{name}", f"{name}({d['s']!r}) returned {got!r}: neither a member value nor one of the documented aliases {sorted(VIS_ALIASES)}; allowed: exception, None, UNAVAILABLE")
+
+
+# ------------------------------------------------------------------------------------------------
 # exhaustive: string-or-enum call sites
 # ------------------------------------------------------------------------------------------------
 
